@@ -600,6 +600,10 @@ func (g *Gen) scenario(p *Profile) {
 			cl := g.confirmedList()
 			b := cl[g.r.Intn(len(cl))]
 			g.emit(fmt.Sprintf("walk %d prune=1", b))
+		case "bad-truncate":
+			// a block refused by the ledger at a late stage (its batch partly filled), and the ledger cut right after it
+			g.badBlockKind([]int{1, 3, 1, 2}[g.r.Intn(4)])
+			fallthrough
 		case "truncate":
 			// as Miner.truncateForMiner: walk the state to a main-chain ancestor, then cut the ledger there
 			tip := e.ledgerTip()
@@ -796,14 +800,16 @@ func (g *Gen) foreignBlock(fork bool) {
 
 // badBlock submits blocks that must be refused somewhere: unknown parent, a tx already on the main chain,
 // a double spend inside the block, an over-paid award.
-func (g *Gen) badBlock() {
+func (g *Gen) badBlock() { g.badBlockKind(g.r.Intn(7)) }
+
+func (g *Gen) badBlockKind(kind int) {
 	e := g.e
 	w := e.w
 	base := e.ledgerTip()
 	if base < 0 {
 		return
 	}
-	switch g.r.Intn(7) {
+	switch kind {
 	case 6: // refused in the VERIFICATION stage (a transaction whose signature does not verify) while it conflicts with the pool
 		st := e.stateTip()
 		if st != base {
